@@ -97,6 +97,9 @@ MATRIX = {
     # still-free variables (v = v after reduction) have to be accepted
     "repeated-uses-of-names-declared-elsewhere": ("let u = num;\nlet f x = { 'v x };\nlet a = f u;\nlet b = f u;\nlet s = u | u;\nlet g x y = x | y;\nlet t = g u u;\n"
                                                   "res / on get -> <{ 'a a, 'b b, 's s, 't t }>;\n", 0),
+    # one variable equated with a number and with a status range: unsolvable whichever comes first
+    "number-and-status-range-through-one-parameter": ("let reply s = <status=s, media=\"application/json\", {}>;\nlet ok = reply 200;\nlet failed = reply 4XX;\nres /things on get -> ok :: failed;\n", 1),
+    "number-and-string-through-one-parameter": ("let wrap v = { 'v v };\nlet a = wrap 1;\nlet b = wrap \"x\";\nres / on get -> <{ 'a a, 'b b }>;\n", 1),
     "chain-of-aliases": ("let a = b;\nlet b = c;\nlet c = { 'n num };\nres / on get -> <a & {}>;\n", 0),
     "use-before-def": ("res / on get -> <a>;\nlet a = {};\n", 0),
     "function-ok": ("let f x = [x];\nres / on get -> <f num>;\n", 0),
